@@ -463,7 +463,7 @@ def cexDb : SearchDb :=
      ("timestamp_ns", .int 172799000000000), ("duration_ns", .int 5)]],
    [[("date", .str (Time.formatDate 172799)), ("key", .str [107]), ("val", .str [118]), ("trace_id", .str [1]),
      ("span_id", .str [2]), ("timestamp_ns", .int 172799000000000), ("duration", .int 5)]]⟩
-def cexOracles : Oracles := ⟨fun _ _ => false, fun _ => [], fun _ => false, fun _ _ _ => false, id, fun _ => 0, fun _ => 0, fun _ _ => [], fun _ _ => []⟩
+def cexOracles : Oracles := { reMatch := fun _ _ => false, jsonLabels := fun _ => [], isNum := fun _ => false, numCmp := fun _ _ _ => false, lower := id }
 
 /-- **idx_only_counterexample.** … and there the results do leave the window: with no tempo_v2 row the counter-pattern
     returns a span 23 hours after the end of a one-second window (same UTC day), which the real plan does not. -/
@@ -535,33 +535,33 @@ open Qryn Qryn.Sql Qryn.Confine Qryn.Prof
 /-- **prof_merge_profiles_confined.** `MergeProfilesPlanner` (SelectMergeProfile, AnalyzeQuery): `profiles` is scanned with
     `timestamp_ns >= From` and `<= To`, the fingerprint sub-query `fp` over `profiles_series_gin` with `date >= date(From − 30 min)`,
     `date <= date(To)` and no other comparison on the date column. Slack 0, both table layouts, any limit. -/
-theorem prof_merge_profiles_confined (cfg : Cfg) (c : PCtx) (h : ProfCfg cfg c) (fpSels mainSels : List Selector) (fq mq : PQuery)
-    (hf : Prof.plan "" [] [] fpSels = some fq) (_hm : Prof.plan "" [] [] mainSels = some mq) :
+theorem prof_merge_profiles_confined (gre : Bytes → Bytes → Bool) (cfg : Cfg) (c : PCtx) (h : ProfCfg cfg c) (fpSels mainSels : List Selector) (fq mq : PQuery)
+    (hf : Prof.plan gre "" [] [] fpSels = some fq) (_hm : Prof.plan gre "" [] [] mainSels = some mq) :
     confined cfg (winProf c) (mergeProfiles c fq.globals fq.kvs mq.globals) = true :=
-  (mergeProfiles_good cfg c h _ _ _ (plan_noDate _ _ _ _ _ hf)).confined
+  (mergeProfiles_good cfg c h _ _ _ (plan_noDate _ _ _ _ _ _ hf)).confined
 
 /-- **prof_merge_traces_confined.** `MergeRawPlanner` → `MergeJoinedPlanner` → `MergeAggregatedPlanner`
     (SelectMergeStacktraces): the only table read is `profiles` in `raw`, with `timestamp_ns >= From` and `< To`, and the
     `fp` sub-query as above; `pre_joined`, `joined` and the final aggregate read WITH entries only. -/
-theorem prof_merge_traces_confined (cfg : Cfg) (c : PCtx) (h : ProfCfg cfg c) (typeUnit : Bytes) (fpSels mainSels : List Selector)
-    (fq mq : PQuery) (hf : Prof.plan "" [] [] fpSels = some fq) (_hm : Prof.plan "" [] [] mainSels = some mq) :
+theorem prof_merge_traces_confined (gre : Bytes → Bytes → Bool) (cfg : Cfg) (c : PCtx) (h : ProfCfg cfg c) (typeUnit : Bytes) (fpSels mainSels : List Selector)
+    (fq mq : PQuery) (hf : Prof.plan gre "" [] [] fpSels = some fq) (_hm : Prof.plan gre "" [] [] mainSels = some mq) :
     confined cfg (winProf c) (mergeTraces c typeUnit fq.globals fq.kvs mq.globals) = true :=
-  (mergeTraces_good cfg c h typeUnit _ _ _ (plan_noDate _ _ _ _ _ hf)).confined
+  (mergeTraces_good cfg c h typeUnit _ _ _ (plan_noDate _ _ _ _ _ _ hf)).confined
 
 /-- **prof_select_series_confined.** `SelectSeriesPlanner` over `GetLabelsPlanner` (SelectSeries; any group-by list,
     aggregation, step): `profiles` with `p.timestamp_ns >= From`, `<= To`; `profiles_series` (labels) and
     `profiles_series_gin` (fp) with the two date bounds. -/
-theorem prof_select_series_confined (cfg : Cfg) (c : PCtx) (h : ProfCfg cfg c) (typeUnit : Bytes) (avg : Bool) (step : Int)
+theorem prof_select_series_confined (gre : Bytes → Bytes → Bool) (cfg : Cfg) (c : PCtx) (h : ProfCfg cfg c) (typeUnit : Bytes) (avg : Bool) (step : Int)
     (groupBy : List Bytes) (fpSels mainSels : List Selector) (fq mq : PQuery)
-    (hf : Prof.plan "" [] [] fpSels = some fq) (hm : Prof.plan "" [] [] mainSels = some mq) :
+    (hf : Prof.plan gre "" [] [] fpSels = some fq) (hm : Prof.plan gre "" [] [] mainSels = some mq) :
     confined cfg (winProf c) (selectSeries c typeUnit avg step (getLabels c groupBy fq.globals fq.kvs mq.globals) mq.globals) = true :=
-  (selectSeries_good cfg c h typeUnit avg step groupBy _ _ _ (plan_noDate _ _ _ _ _ hf) (plan_noDate _ _ _ _ _ hm)).confined
+  (selectSeries_good cfg c h typeUnit avg step groupBy _ _ _ (plan_noDate _ _ _ _ _ _ hf) (plan_noDate _ _ _ _ _ _ hm)).confined
 
 /-- **prof_series_confined.** `PlanSeries` for one selector set (with or without label names; without any selector the
     whole `profiles_series` of the window's days): the two date bounds on every scan. -/
-theorem prof_series_confined (cfg : Cfg) (c : PCtx) (h : ProfCfg cfg c) (labels : List Bytes) :
+theorem prof_series_confined (gre : Bytes → Bytes → Bool) (cfg : Cfg) (c : PCtx) (h : ProfCfg cfg c) (labels : List Bytes) :
     confined cfg (winProf c) (Prof.planSeries c labels none) = true ∧
-    ∀ (sels : List Selector) (q : PQuery), Prof.plan "" [] [] sels = some q →
+    ∀ (sels : List Selector) (q : PQuery), Prof.plan gre "" [] [] sels = some q →
       confined cfg (winProf c) (Prof.planSeries c labels (some (q.globals, q.kvs))) = true := by
   refine ⟨(profSeries_good cfg c h labels none (by intro p hp; cases hp)).confined, fun sels q hq => ?_⟩
   apply GoodM.confined
@@ -569,36 +569,36 @@ theorem prof_series_confined (cfg : Cfg) (c : PCtx) (h : ProfCfg cfg c) (labels 
   intro p hp
   injection hp with hp
   subst hp
-  exact plan_noDate _ _ _ _ _ hq
+  exact plan_noDate _ _ _ _ _ _ hq
 
 /-- **prof_labels_union_confined.** LabelNames / LabelValues WITH selector sets: `fp` is the UNION ALL of one selector statement
     per set — each an index scan of `profiles_series_gin` with the two date bounds (`selectorSel`) — and the main select scans
     the index with the two date bounds and `fingerprint IN fp`. -/
-theorem prof_labels_union_confined (cfg : Cfg) (c : PCtx) (h : ProfCfg cfg c) (col : String) (label : Option Bytes)
-    (scripts : List (List Selector × PQuery)) (hq : ∀ p ∈ scripts, Prof.plan "" [] [] p.1 = some p.2) :
+theorem prof_labels_union_confined (gre : Bytes → Bytes → Bool) (cfg : Cfg) (c : PCtx) (h : ProfCfg cfg c) (col : String) (label : Option Bytes)
+    (scripts : List (List Selector × PQuery)) (hq : ∀ p ∈ scripts, Prof.plan gre "" [] [] p.1 = some p.2) :
     unionConfined cfg (winProf c) (labelsUnion c col label (scripts.map (fun p => (p.2.globals, p.2.kvs)))) = true := by
   apply labelsUnion_confined cfg c h
   intro p hp g hg
   obtain ⟨sq, hsq, rfl⟩ := List.mem_map.mp hp
-  exact plan_noDate _ _ _ _ _ (hq sq hsq) g hg
+  exact plan_noDate _ _ _ _ _ _ (hq sq hsq) g hg
 
 /-- **prof_series_union_confined.** `PlanSeries` for two or more selector sets: every operand of the `pre_distinct` union
     (one `TimeSeriesSelectPlanner` statement per set) scans `profiles_series` with the two date bounds, the hoisted `fp` entry
     is the first set's selector statement, the selects over them read WITH entries only. -/
-theorem prof_series_union_confined (cfg : Cfg) (c : PCtx) (h : ProfCfg cfg c) (labels : List Bytes)
-    (scripts : List (List Selector × PQuery)) (hq : ∀ p ∈ scripts, Prof.plan "" [] [] p.1 = some p.2) :
+theorem prof_series_union_confined (gre : Bytes → Bytes → Bool) (cfg : Cfg) (c : PCtx) (h : ProfCfg cfg c) (labels : List Bytes)
+    (scripts : List (List Selector × PQuery)) (hq : ∀ p ∈ scripts, Prof.plan gre "" [] [] p.1 = some p.2) :
     unionConfined cfg (winProf c) (seriesUnion c labels (scripts.map (fun p => (p.2.globals, p.2.kvs)))) = true := by
   apply seriesUnion_confined cfg c h
   intro p hp g hg
   obtain ⟨sq, hsq, rfl⟩ := List.mem_map.mp hp
-  exact plan_noDate _ _ _ _ _ (hq sq hsq) g hg
+  exact plan_noDate _ _ _ _ _ _ (hq sq hsq) g hg
 
 /-- **prof_analyze_query_confined.** `ProfileSizePlanner` over `MergeProfilesPlanner` (AnalyzeQuery): the only table reads are
     those of the merge-profiles statement (`prof_merge_profiles_confined`); the two bracketed sub-selects in the column list
     read the WITH entries `pre_profile_size` and `fp`. -/
-theorem prof_analyze_query_confined (cfg : Cfg) (c : PCtx) (h : ProfCfg cfg c) (sels : List Selector) (q : PQuery)
-    (hq : Prof.plan "" [] [] sels = some q) : confined cfg (winProf c) (analyzeQuery c q.globals q.kvs) = true :=
-  (analyzeQuery_good cfg c h _ _ (plan_noDate _ _ _ _ _ hq)).confined
+theorem prof_analyze_query_confined (gre : Bytes → Bytes → Bool) (cfg : Cfg) (c : PCtx) (h : ProfCfg cfg c) (sels : List Selector) (q : PQuery)
+    (hq : Prof.plan gre "" [] [] sels = some q) : confined cfg (winProf c) (analyzeQuery c q.globals q.kvs) = true :=
+  (analyzeQuery_good cfg c h _ _ (plan_noDate _ _ _ _ _ _ hq)).confined
 
 /-- **prof_labels_confined.** LabelNames / LabelValues without a selector: `profiles_series_gin` with the two date bounds. -/
 theorem prof_labels_confined (cfg : Cfg) (c : PCtx) (h : ProfCfg cfg c) (col : String) (label : Option Bytes) :
